@@ -72,7 +72,7 @@ impl FeatureNextFn {
             quote! {
                 /// Returns the next element after this in value order
                 #vis fn #ident_next(self) -> ::core::option::Option<Self> {
-                    use ::core::iter::Iterator;
+                    use ::core::iter::Iterator as _;
                     use ::core::option::Option::Some;
                     let mut current = self as #repr;
                     let mut it = Self::#ident_table_range.iter();
